@@ -36,7 +36,7 @@ RULE = ('exhaustive histories up to length 4 (thorough: 5) over the alphabet {in
         'm in a fixed list of 10 mutations} + 3 clone operations, and of length 5 (thorough: 6) over a reduced alphabet of 5 mutations, on a '
         'fixed two-class scenario, only histories with a build whose mutations target an already built metamodel; '
         'plus random histories of length <= 12 over '
-        'generated schemas and populations with randomly chosen mutations. Non-trivial = at least two metamodels were '
+        'generated schemas and populations (some with a class whose rows are read before its CREATE TABLE, so that earlier builds infer it) with randomly chosen mutations. Non-trivial = at least two metamodels were '
         'built and a mutation changed one of them; distinct = distinct (chunks, history)')
 EXHAUSTIVE = {'quick': True, 'thorough': True}
 ASSUMPTIONS = ['every build gets its own IntegerGenerator (a generator object handed to two builds is shared by the caller)',
@@ -175,6 +175,13 @@ def _random_case(rng, maxlen):
     elif r < 0.33:
         # ... or makes every later build fail (class defined twice)
         chunks.append([{'t': 'cls', 'kind': classes[0]['kind'], 'attrs': [['z', 'INTEGER']]}])
+    elif r < 0.45:
+        # ... or a class whose rows come first (positional INSERTs: the class is inferred from the data by every build
+        # until then) and whose CREATE TABLE arrives with a later input
+        late_rows = [{'t': 'insert', 'kind': 'KL', 'names': None, 'vals': [['i', 7], ['s', 'x']], 'lex': ['7', "'x'"]},
+                     {'t': 'insert', 'kind': 'KL', 'names': None, 'vals': [['i', 8], ['s', '']], 'lex': ['8', "''"]}]
+        chunks[rng.randrange(len(chunks))].extend(late_rows[:rng.randint(1, 2)])
+        chunks.append([{'t': 'cls', 'kind': 'KL', 'attrs': [['l0', 'INTEGER'], ['l1', 'STRING']]}])
     refs = {}
     for a in assocs:
         refs.setdefault(a['sk'], set()).update(a['skeys'])
